@@ -24,8 +24,7 @@ def run(chk):
                         cov_key="policy_outcomes", n_quick=200, n_thorough=3000)
     if ok:
         import source_tie
-        source_tie.report(chk, source_tie.loop_tie(chk), "loop",
-                          "scripted call sequences (random, abort sentinels and sweeps): no property violation found")
+        source_tie.runner_ties(chk)
 
 
 def replay(path):
